@@ -213,7 +213,7 @@ Proof.
       - intros k' Hin'. pose proof (end_of_file_le kids' (v_dataoff h) k' ltac:(lia) Hin'). lia. }
     split.
     + eapply asm_vol_valid_fv; eauto; lia.
-    + destruct (hagree_asm_vol _ _ _ _ _ _ _ Ea Hvk Hr Hin) as ((Lz & Hn) & Hg).
+    + destruct (hagree_asm_vol _ _ _ _ _ _ _ Ea Hvk Hr Hin) as ((Lz & Hn) & Hg & _).
       destruct Hin as (_ & Lvb & Hh & R32 & R48 & _ & Hdoff & _ & _).
       assert (K64 : 64 <= v_dataoff h).
       { unfold fv_hdr_ok in Hh. cbv zeta in Hh.
